@@ -123,12 +123,13 @@ type HarnessResult struct {
 	SolverErrors  int
 	Transcripts   []string
 	WitnessRes    []WitnessResult
+	VioCount      map[string]int
 }
 
 // Explore runs a harness function over all feasible paths.
 func (e *Engine) Explore(fn *ssa.Function, unwind int) *HarnessResult {
 	t0 := time.Now()
-	res := &HarnessResult{Name: fn.Name(), Pkg: fn.Pkg.Pkg.Path(), Reach: map[string]*PathResult{}, Funcs: map[string]int{}, Summaries: map[string]bool{}}
+	res := &HarnessResult{Name: fn.Name(), Pkg: fn.Pkg.Pkg.Path(), Reach: map[string]*PathResult{}, Funcs: map[string]int{}, Summaries: map[string]bool{}, VioCount: map[string]int{}}
 	var mu sync.Mutex
 	queue := [][]int{{}}
 	active := 0
@@ -203,7 +204,12 @@ func (e *Engine) Explore(fn *ssa.Function, unwind int) *HarnessResult {
 				case "error":
 					res.Errors = append(res.Errors, pr.Msg)
 				}
-				res.Violations = append(res.Violations, pr.Violations...)
+				for _, v := range pr.Violations {
+					res.VioCount[v.Label]++
+					if res.VioCount[v.Label] <= 3 {
+						res.Violations = append(res.Violations, v)
+					}
+				}
 				res.Inconclusive = append(res.Inconclusive, pr.Inconclusive...)
 				if pr.Status == "ok" || pr.Status == "panic" {
 					for _, ev := range pr.Events {
